@@ -23,7 +23,6 @@ from pyvc.engine import PyRaise
 from contracts.lib import *
 import ast
 import z3
-import os as _os
 
 F = "ioflo/aio/http/httping.py"
 BA = List(INT)            # bytearray
@@ -361,8 +360,6 @@ def _sub(E, lv, a, b, kind=None):
     """new list lv[a:b]; its array is a NAMED array with the defining axiom (trigger: a read of the new array), so
     that quantified facts about the new list chain to the facts about the source by e-matching"""
     src = E.larrs(lv)[0]
-    if _os.environ.get("C33_SUB") == "lambda":
-        return E.new_list(lv.et, b - a, [z3.Lambda([B.KLAM], z3.Select(src, B.KLAM + a))], kind=kind or lv.kind)
     arr = E.fresh("sub", src.sort())
     k = E.fresh("ksub", z3.IntSort())
     E.assume(z3.ForAll([k], z3.Select(arr, k) == z3.simplify(z3.Select(src, k + a)), patterns=[z3.Select(arr, k)]))
@@ -1152,18 +1149,6 @@ def _call_events(env, nr):
     return next(env["_gen"])
 
 
-class _Ev(object):
-    def __init__(self, d):
-        self.eid, self.name, self.data = d["id"], d["name"], d["data"]
-
-    def __eq__(self, o):
-        return isinstance(o, _Ev) and (self.eid, self.name, self.data) == (o.eid, o.name, o.data)
-
-
-class _Events(list):
-    pass
-
-
 def _view_events(env, nr):
     d = _view(env, nr)
     fr = env["_gen"].gi_frame
@@ -1171,11 +1156,6 @@ def _view_events(env, nr):
         for k, v in fr.f_locals.items():
             d["L_" + k] = v
     return d
-
-
-def _ev_native_ns():
-    # events are odicts natively: expose .eid / .name / .data on them for the clauses
-    pass
 
 
 for _c in REG.contracts[(F, "EventSource.parseEvents")]:
